@@ -553,7 +553,7 @@ func main() {
 	keys := map[string]struct{}{}
 	root := vlib.NewRand(res.Seed)
 	total := 0
-	for i := 0; i < nseq && res.NViolations() < 50; i++ {
+	for i := 0; i < nseq && res.NViolations() < 50 && !res.TimeUp(); i++ {
 		total += runSeq(res, root.U64(), keys)
 	}
 	for i := 0; i < nb && res.NViolations() < 50; i++ {
